@@ -348,7 +348,7 @@ func main() {
 		}
 		term := lib.App("Check.C01.mk", lib.Z(int64(s.thr)), lib.Z(int64(s.lvl)), lib.Bool(s.sb), sec,
 			lib.ListOf(s.payloads, lib.Bytes), lib.List(dt), lib.Bytes(et), lib.Bytes(res.wire),
-			lib.ListOf(res.chunks, func(k int) string { return lib.N(uint64(k)) }),
+			rle(res.chunks),
 			lib.ListOf(res.read, lib.Bytes), oterm(res.term))
 		tags := []string{fmt.Sprintf("thr=%d", s.thr), fmt.Sprintf("lvl=%d", s.lvl), "chunks=" + s.chunkStyle}
 		if s.secret != nil {
@@ -450,4 +450,18 @@ func hexList(xs [][]byte) []string {
 		}
 	}
 	return o
+}
+
+// rle prints chunk sizes run-length encoded as (size, times) pairs
+func rle(xs []int) string {
+	var items []string
+	for i := 0; i < len(xs); {
+		j := i
+		for j < len(xs) && xs[j] == xs[i] {
+			j++
+		}
+		items = append(items, lib.Pair(fmt.Sprint(xs[i]), fmt.Sprint(j-i)))
+		i = j
+	}
+	return lib.List(items)
 }
